@@ -11,31 +11,6 @@ def kCharset : Bytes := [99, 104, 97, 114, 115, 101, 116]
 def kLatin1 : Bytes := [105, 115, 111, 45, 56, 56, 53, 57, 45, 49]
 #guard kText = str "text" ∧ kCharset = str "charset" ∧ kLatin1 = str "iso-8859-1"
 
-/-- UTF-8 encodings of the code points with the Unicode `White_Space` property (what `str::trim` strips) -/
-def wsSeqs : List Bytes :=
-  [[9], [10], [11], [12], [13], [32], [0xC2, 0x85], [0xC2, 0xA0], [0xE1, 0x9A, 0x80],
-   [0xE2, 0x80, 0x80], [0xE2, 0x80, 0x81], [0xE2, 0x80, 0x82], [0xE2, 0x80, 0x83], [0xE2, 0x80, 0x84],
-   [0xE2, 0x80, 0x85], [0xE2, 0x80, 0x86], [0xE2, 0x80, 0x87], [0xE2, 0x80, 0x88], [0xE2, 0x80, 0x89],
-   [0xE2, 0x80, 0x8A], [0xE2, 0x80, 0xA8], [0xE2, 0x80, 0xA9], [0xE2, 0x80, 0xAF], [0xE2, 0x81, 0x9F],
-   [0xE3, 0x80, 0x80]]
-
-def stripWsPrefix (s : Bytes) : Option Bytes :=
-  (wsSeqs.find? fun w => w.isPrefixOf s).map fun w => s.drop w.length
-
-def rustTrimStart : Nat → Bytes → Bytes
-  | 0, s => s
-  | fuel + 1, s => match stripWsPrefix s with | some r => rustTrimStart fuel r | none => s
-
-def stripWsSuffix (s : Bytes) : Option Bytes :=
-  (wsSeqs.find? fun w => w.reverse.isPrefixOf s.reverse).map fun w => s.take (s.length - w.length)
-
-def rustTrimEnd : Nat → Bytes → Bytes
-  | 0, s => s
-  | fuel + 1, s => match stripWsSuffix s with | some r => rustTrimEnd fuel r | none => s
-
-/-- `str::trim` on valid UTF-8 -/
-def rustTrim (s : Bytes) : Bytes := rustTrimEnd s.length (rustTrimStart s.length s)
-
 def splitAtByte (d : UInt8) (s : Bytes) : Option (Bytes × Bytes) :=
   (findByte d s).map fun i => (s.take i, s.drop (i + 1))
 
